@@ -315,17 +315,32 @@ def translate(cfg, outdir):
         if over is not None:
             enum_defs.append("#define %s (%d)" % (cn, over))
             continue
-        if elast not in enum_cache:
+        if et not in enum_cache:  # keyed by the qualified enum type: two enums may share their last name
             vals = None
             for u in units:
                 vals = enum_values(astq.query(u["tu"], et if "::" in et else elast), elast)
                 if vals:
                     break
-            enum_cache[elast] = vals
-        vals = enum_cache[elast]
+            enum_cache[et] = vals
+        vals = enum_cache[et]
         if not vals or name not in vals:
             raise ExtractionError("cannot resolve enum constant %s::%s" % (et, name))
         enum_defs.append("#define %s (%d)" % (cn, vals[name]))
+    # "enum_export": [qualified enum names]: every constant of these enums is defined, used by a unit or not (a spec
+    # must not stop compiling because an edit of the source no longer mentions a constant)
+    for et in cfg.get("enum_export", []):
+        elast = et.split("::")[-1]
+        vals = None
+        for u in units:
+            vals = enum_values(astq.query(u["tu"], et), elast)
+            if vals:
+                break
+        if not vals:
+            raise ExtractionError("cannot resolve exported enum %s" % et)
+        for name, v in sorted(vals.items()):
+            d = "#define %s__%s (%d)" % (cfg.get("enum_rename", {}).get(et, elast), name, v)
+            if d not in enum_defs:
+                enum_defs.append(d)
 
     # ---- implicit (compiler-generated) copy/move assignment `a = b` of a class emitted as a plain C struct: memberwise
     # copy == C struct assignment. Only when clang says every X::operator= it sees is implicit (never for user code).
@@ -384,6 +399,9 @@ def translate(cfg, outdir):
         ct = em.const_types.get(n)
         lit = "((%s)%d)" % (ct, v) if ct and ct != "int" and not ct.startswith("struct") and "*" not in ct else "(%d)" % v
         h.append("#define VFC_%s %s /* %s, evaluated by g++ */" % (ident(n), lit, cfg["const_globals"][n]["expr"]))
+    # "exception_kinds": [class names]: kinds that are always defined (a spec keeps compiling when an edit drops a throw)
+    for k in cfg.get("exception_kinds", []):
+        em.exc_kinds.add("VF_EXC_" + k)
     for i, k in enumerate(sorted(em.exc_kinds)):
         h.append("#define %s (%d)" % (k, 2 + i))
     h.append(models.gen_funcs(tm, lib))
